@@ -297,10 +297,66 @@ func apiPaging(n *harness.Node, e forge.Eras, r *orch.Result, seed int64) error 
 	for i := 0; i < len(all); i += 1 + len(all)/12 {
 		pickIdx[i] = true
 	}
+	// what each address is involved in, derived from the action rows themselves (sender, transfer
+	// outputs, refund outputs) — NOT from the lookup table the API reads
+	involved := map[factom.FAAddress]map[string]bool{}
+	note := func(a factom.FAAddress, k string) {
+		if involved[a] == nil {
+			involved[a] = map[string]bool{}
+		}
+		involved[a][k] = true
+	}
+	trows, err := db.Query("SELECT entry_hash, tx_index, from_address, outputs FROM pn_history_transaction")
+	if err != nil {
+		return err
+	}
+	for trows.Next() {
+		var h, from, outs []byte
+		var idx int
+		trows.Scan(&h, &idx, &from, &outs)
+		k := fmt.Sprintf("%d-%x", idx, h)
+		var fa factom.FAAddress
+		copy(fa[:], from)
+		note(fa, k)
+		if len(outs) > 2 {
+			var os []struct {
+				Address factom.FAAddress `json:"address"`
+			}
+			if json.Unmarshal(outs, &os) == nil {
+				for _, o := range os {
+					note(o.Address, k)
+				}
+			}
+		}
+	}
+	trows.Close()
+	// the sample of addresses is still drawn by their number of lookup rows (page-size boundaries)…
 	for i := range pickIdx {
 		var fa factom.FAAddress
 		copy(fa[:], all[i].a)
-		cases = append(cases, keyCase{"address", map[string]interface{}{"address": fa.String()}, expectQuery("SELECT entry_hash, tx_index FROM pn_history_lookup WHERE address = ?", all[i].a)})
+		exp := involved[fa]
+		if exp == nil {
+			exp = map[string]bool{}
+		}
+		cases = append(cases, keyCase{"address", map[string]interface{}{"address": fa.String()}, exp})
+	}
+	// …plus addresses that receive several outputs of one batch, and the busiest receivers
+	type cnt struct {
+		a factom.FAAddress
+		n int
+	}
+	var byN []cnt
+	for a, m := range involved {
+		byN = append(byN, cnt{a, len(m)})
+	}
+	sort.Slice(byN, func(i, j int) bool {
+		if byN[i].n != byN[j].n {
+			return byN[i].n > byN[j].n
+		}
+		return string(byN[i].a[:]) < string(byN[j].a[:])
+	})
+	for i := 0; i < len(byN) && i < 60; i++ {
+		cases = append(cases, keyCase{"address", map[string]interface{}{"address": byN[i].a.String()}, involved[byN[i].a]})
 	}
 	nobody := forge.NewKey("c17-nobody").FA()
 	cases = append(cases, keyCase{"address", map[string]interface{}{"address": nobody.String()}, map[string]bool{}})
